@@ -25,7 +25,8 @@ RULE = ("the delivery scripts of C06's proved space (coherent operation sets inj
         "callbacks are collected after every step (FIFO marker barrier through splitter, relay and the async observer, "
         "no sleeps). 30% of the scripts add storage faults (the wrapped engine refuses to commit the next ingress "
         "transaction that wrote something; the same delivery usually follows again: nothing may be handed for the failed "
-        "one, exactly once for the redelivery). 14% of the scripts stall one subscriber (its handler blocks, 66-90 forwarded requests overflow its "
+        "one, exactly once for the redelivery). In 40% of the scripts a share of the DB.Set/Delete calls run under a "
+        "per-call context cancelled right after the call returned (must have no effect on what is handed later). 14% of the scripts stall one subscriber (its handler blocks, 66-90 forwarded requests overflow its "
         "64-slot buffer) next to subscribers that keep up and continue with 4-7 accepted batches on that node: the others "
         "must still be handed every change. Extra phase: two creators of one key (the known lease-path finding) where the only allowed code is "
         "'same (key, version, leaseholder) handed twice'. Non-trivial = some subscriber was handed >= 2 batches, a "
@@ -125,6 +126,7 @@ def gen_case(rng):
         c = K.gen_D(rng)
     fam = c["fam"]
     c = K.add_faults(rng, c, p=0.3)
+    c = K.add_cancels(rng, c, p=0.4)
     c = add_subs(rng, c, stall=rng.random() < 0.14)
     c["fam"] = fam
     return c
